@@ -56,14 +56,30 @@ LeafKeyPath(l) == IF l.k = "array" THEN l.p \o "[]" ELSE l.p
 
 MapOf(key) == { j \in 1..Len(OutMap) : <<OutMap[j].f, OutMap[j].r, OutMap[j].p>> = key }
 
+\* NumPy dtype kind a field surfaces with (property C12: only b i u f c M m U may appear)
+DtypeKind(l, tr) ==
+    CASE tr \in {"ydms", "ydus", "att_time"}      -> "M"
+      [] tr \in {"iso", "pp_datetime"}            -> "U"
+      [] tr = "bool"                               -> "b"
+      [] tr = "enum" \/ l.t # ""                  -> "U"
+      [] tr = "range0"                             -> "i"
+      [] l.k = "ai"                                -> "i"
+      [] l.k = "af"                                -> "f"
+      [] l.k = "ac"                                -> "c"
+      [] l.k = "s"                                 -> "U"
+      [] l.k = "flag"                              -> "b"
+      [] l.k \in {"u8", "u16", "u32", "u64"}      -> IF l.e # 0 THEN "f" ELSE "i"
+      [] OTHER                                     -> "O"
+
 TakeLeaf == /\ i <= Len(flat)
            /\ LET l == flat[i]
                   w == IF l.k = "array" THEN l.c * l.stride ELSE l.w
                   ks == IF l.k = "array" THEN { Key(Instances[inst], r, e) : e \in { Expand(<<l>>)[j] : j \in 1..Len(l.el) } }
                         ELSE { Key(Instances[inst], r, l) }
               IN /\ cur' = cur + w
-                 /\ slots' = slots \cup { <<OutMap[j].g, OutMap[j].n, OutMap[j].ix, OutMap[j].c>> :
-                                           j \in UNION { MapOf(kk) : kk \in ks } }
+                 /\ slots' = slots \cup UNION { { <<OutMap[j].g, OutMap[j].n, OutMap[j].k, OutMap[j].d, DtypeKind(e, OutMap[j].tr)>> :
+                                                    j \in MapOf(Key(Instances[inst], r, e)) } :
+                                                  e \in (IF l.k = "array" THEN { Expand(<<l>>)[j] : j \in 1..Len(l.el) } ELSE {l}) }
            /\ i' = i + 1
            /\ UNCHANGED <<inst, r, flat>>
 Done == i > Len(flat) /\ UNCHANGED vars
@@ -86,4 +102,7 @@ Classified   == \A j \in 1..Len(LeavesAt) :
 UnitsAreOnVariables == \A j \in 1..Len(LeavesAt) :
                    LET l == LeavesAt[j]  key == Key(Instances[inst], r, l) IN
                    \A m \in MapOf(key) : l.u # "" => OutMap[m].k = "var"
+\* C12: every exposed field has one of the admissible dtype kinds, and all fields feeding one variable agree on kind and dims
+WellTypedSlots == /\ \A s \in slots : s[5] \in {"b", "i", "u", "f", "c", "M", "m", "U"}
+                  /\ \A s, t \in slots : (s[1] = t[1] /\ s[2] = t[2]) => (s[3] = t[3] /\ s[4] = t[4] /\ s[5] = t[5])
 =============================================================================
